@@ -592,7 +592,7 @@ func VerifC29Recovered(h *verifrt.H) {
 
 // ---------- C11 / C12 (swamp level) ----------
 
-const c11Past, c11Future = int64(1000), int64(3_900_000_000_000_000_000)
+const c11Past, c11Future = int64(1000), int64(9_000_000_000_000_000_000)
 
 func c11put(s Swamp, key string, body byte, expiry int64) {
 	t := s.CreateTreasure(key)
@@ -626,7 +626,10 @@ func VerifC11Claims(h *verifrt.H) {
 	if h.Choose("indexBuiltBefore", 2) == 1 {
 		s.GetTreasuresByBeacon(BeaconTypeExpirationTime, IndexOrderAsc, 0, 0, nil, nil)
 	}
-	scenario := h.Choose("scenario", h.Param("scenarios", 3))
+	scenario := h.Param("onlyScenario", -1)
+	if scenario < 0 {
+		scenario = h.Choose("scenario", h.Param("scenarios", 3))
+	}
 	var got1, got2 []treasure.Treasure
 	var patched []PatchExpiredEntry
 	deleted := false
